@@ -412,6 +412,12 @@ func (g *SymbolGraph) FindByKind(kinds ...common.SymKind) []*SymbolNode {
 		}
 	}
 
+	// Map iteration order is randomized; Order by ID so consumers (e.g. reduction, which hands out
+	// import serials in iteration order) yield the same output on every run
+	slices.SortFunc(results, func(a, b *SymbolNode) int {
+		return strings.Compare(a.Id.BaseId(), b.Id.BaseId())
+	})
+
 	return results
 }
 
